@@ -256,7 +256,74 @@ func PhiTest(cond ssa.Value) (phi *ssa.Phi, eval func(e ssa.Value, pred *ssa.Bas
 
 // AlwaysNilResult: v is result #idx of a call to a function (a named one or a function
 // literal bound to a local) every return of which hands back a nil constant there.
-func AlwaysNilResult(v ssa.Value) bool {
+func AlwaysNilResult(v ssa.Value) bool { return alwaysNilResult(v, 0) }
+
+// closureTarget resolves a called function value to the function literal it denotes: the
+// literal itself, a local variable holding it, or - inside another literal - the captured
+// variable of the enclosing function that holds it (stored once).
+func closureTarget(v ssa.Value) *ssa.Function {
+	switch x := Origin(v).(type) {
+	case *ssa.MakeClosure:
+		fn, _ := x.Fn.(*ssa.Function)
+		return fn
+	case *ssa.Function:
+		return x
+	}
+	ld, ok := v.(*ssa.UnOp)
+	if !ok || ld.Op != token.MUL {
+		return nil
+	}
+	cellStores := func(cell ssa.Value) *ssa.Function {
+		var found *ssa.Function
+		n := 0
+		if cell.Referrers() == nil {
+			return nil
+		}
+		for _, ref := range *cell.Referrers() {
+			if st, isSt := ref.(*ssa.Store); isSt && st.Addr == cell {
+				n++
+				switch y := st.Val.(type) {
+				case *ssa.MakeClosure:
+					found, _ = y.Fn.(*ssa.Function)
+				case *ssa.Function:
+					found = y
+				}
+			}
+		}
+		if n == 1 {
+			return found
+		}
+		return nil
+	}
+	switch cell := ld.X.(type) {
+	case *ssa.Alloc:
+		return cellStores(cell)
+	case *ssa.FreeVar:
+		fn := cell.Parent()
+		idx := -1
+		for i, fv := range fn.FreeVars {
+			if fv == cell {
+				idx = i
+			}
+		}
+		if fn.Parent() == nil || idx < 0 {
+			return nil
+		}
+		for _, b := range fn.Parent().Blocks {
+			for _, ins := range b.Instrs {
+				if mc, isMC := ins.(*ssa.MakeClosure); isMC && mc.Fn == ssa.Value(fn) && idx < len(mc.Bindings) {
+					return cellStores(mc.Bindings[idx])
+				}
+			}
+		}
+	}
+	return nil
+}
+
+func alwaysNilResult(v ssa.Value, depth int) bool {
+	if depth > 3 {
+		return false
+	}
 	c, idx := CallOf(v)
 	if c == nil {
 		return false
@@ -267,8 +334,8 @@ func AlwaysNilResult(v ssa.Value) bool {
 	var fn *ssa.Function
 	if f := c.Common().StaticCallee(); f != nil {
 		fn = f
-	} else if mc, ok := Origin(c.Common().Value).(*ssa.MakeClosure); ok {
-		fn, _ = mc.Fn.(*ssa.Function)
+	} else if c.Common().Value != nil && !c.Common().IsInvoke() {
+		fn = closureTarget(c.Common().Value)
 	}
 	if fn == nil || len(fn.Blocks) == 0 {
 		return false
@@ -281,10 +348,14 @@ func AlwaysNilResult(v ssa.Value) bool {
 		if idx >= len(r.Results) {
 			return false
 		}
-		k, isC := r.Results[idx].(*ssa.Const)
-		if !isC || k.Value != nil {
-			return false
+		if k, isC := r.Results[idx].(*ssa.Const); isC && k.Value == nil {
+			continue
 		}
+		// `return refuse(...)`: a refusal built by another helper that never hands back a value
+		if alwaysNilResult(r.Results[idx], depth+1) {
+			continue
+		}
+		return false
 	}
 	return true
 }
